@@ -18,8 +18,9 @@ TraceMeaning ==
   [tok \in DOMAIN Hdr.meaning |->
      [gg |-> Hdr.meaning[tok].gg, lw |-> Hdr.meaning[tok].lw]]
 
-VARIABLE l      \* index of the next record to consume
-tvars == <<vars, l>>
+VARIABLES l,    \* index of the next record to consume
+          used  \* deviation flags the accepted steps went through (Core!Flag)
+tvars == <<vars, l, used>>
 
 ToSetOfSeq(s) == {s[i] : i \in DOMAIN s}
 
@@ -78,11 +79,12 @@ ProjMatch(jp, X) ==
 ObjOrEmpty(r, f) == IF Has(r, f) THEN r[f] ELSE <<>>
 
 \* ---- the trace next-state relation ---------------------------------------
-TraceInit == Init /\ l = 2
+TraceInit == Init /\ l = 2 /\ used = {}
 
 Consume ==
   /\ l <= Len(Rec)
   /\ l' = l + 1
+  /\ \A i \in 1..NFlags : TLCSet(i, FALSE)
   /\ LET j == Rec[l] IN
      IF j.op = "reset"
        THEN /\ S' = InitS /\ R' = InitR
@@ -94,6 +96,8 @@ Consume ==
             /\ Has(j, "ls")   => LsMatch(j.ls, out'.ls)
             /\ Has(j, "lk")   => LkMatch(j.lk, out'.lk)
             /\ Has(j, "proj") => ProjMatch(j.proj, S')
+  /\ used' = used \cup {FlagNames[i] : i \in {j \in 1..NFlags : TLCGet(j)}}
+  /\ (l = Len(Rec)) => PrintT("DEV-USED " \o ToString(used'))
 
 TraceSpec == TraceInit /\ [][Consume]_tvars
 
@@ -105,6 +109,7 @@ TraceEdge == EdgeRep /\ EdgeEv /\ EdgeLk /\ EdgeOnce
 \* ---- acceptance ------------------------------------------------------------
 TraceAccepted ==
   LET d == TLCGet("stats").diameter IN
-  IF d - 1 = Len(Rec) - 1 THEN TRUE
+  IF d - 1 = Len(Rec) - 1
+    THEN TRUE
   ELSE Print(<<"TRACE-REJECTED at record", d + 1, ToJson(Rec[d + 1])>>, FALSE)
 =============================================================================
